@@ -179,3 +179,6 @@ func TName(t *ast.Type) string { panic("ghost") }
 //@ props C03
 //@ modifies-assumed fresh
 //@ end
+
+//@ commute (TypeURLMap).SetFromSchema loop 0: proved: SetFromSchema's functional contract (routes, frame-types, frame-fields, flags) is proved for an arbitrary iteration order and determines every route and flag
+//@ commute mergeTypes loop 1: assumed: each iteration writes only result[k] (the merged definition of its own key); mergeRootObjects may append in place into a field array shared with an input schema, beyond its length
